@@ -15,28 +15,34 @@ macro_rules
     `(tactic| simp only [execI, constI, argI, li_instr, vm, bind, Except.bind, pure, Except.pure, VM.push, VM.pop,
         VM.pop2, VM.current, failV, constStr, binOpOf, $ts,*])
 
-variable {c : Cfg} {P : Prog} {k : Nat} {l : Loc} {r : List LInstr} {st : List Val} {scs : List Scope}
+variable {c : Cfg} {P : LProg} {k : Nat} {l : Loc} {r : List LInstr} {st : List Val} {scs : List Scope}
   {σ : SState} {lim : Int} {Q : Res}
 
+/-- the blame obligation of an instruction at location `l` whose result is `r`: if it fails, the program's
+    blame relation holds of the class and `l` -/
+def RBlame {α : Type} (P : LProg) (l : Loc) (r : R α) : Prop := ∀ e, r = .error e → P.blame e l
+
 /-- terminal form for an opcode whose result is `liftR s res` pushed -/
-theorem runs_lift {ip : Nat} {pp : Nat} (res : R Val) :
-    ExecPost c P (do let v ← liftR (⟨st, scs, ip, pp, σ.memory, lim, σ.created, σ.log⟩ : VM) res
-                     pure (VM.push ⟨st, scs, ip, pp, σ.memory, lim, σ.created, σ.log⟩ v) : RV VM)
+theorem runs_lift {ip : Nat} {pp : Nat} (res : R Val) (hb : RBlame P l res) :
+    ExecPost c P l (do let v ← liftR (⟨st, scs, ip, pp, σ.memory, lim, σ.created, σ.log⟩ : VM) res
+                       pure (VM.push ⟨st, scs, ip, pp, σ.memory, lim, σ.created, σ.log⟩ v) : RV VM)
       (outcome res ip st scs σ lim) := by
+  revert hb
   cases res with
-  | ok v => exact ExecPost.ok (Reach.refl _) rfl
-  | error e => rfl
+  | ok v => intro _; exact ExecPost.ok (Reach.refl _) rfl
+  | error e => intro hb; exact ⟨rfl, hb e rfl⟩
 
 /-- the same for a result function that mirrors the opcode's own case analysis -/
 theorem runs_res {x : RV VM} {ip pp : Nat} {s2 : VM} (res : R Val)
     (hx : x = match res with
               | .ok v => .ok ⟨v :: st, scs, ip, pp, σ.memory, lim, σ.created, σ.log⟩
               | .error e => .error (e, s2))
-    (h2 : obs s2 = σ) : ExecPost c P x (outcome res ip st scs σ lim) := by
+    (h2 : obs s2 = σ) (hb : RBlame P l res) : ExecPost c P l x (outcome res ip st scs σ lim) := by
   subst hx
+  revert hb
   cases res with
-  | ok v => exact ExecPost.ok (Reach.refl _) rfl
-  | error e => simp only [ExecPost, outcome, h2]
+  | ok v => intro _; exact ExecPost.ok (Reach.refl _) rfl
+  | error e => intro hb; exact ⟨by simp only [outcome, h2], hb e rfl⟩
 
 /-! #### constants, literals -/
 
@@ -78,17 +84,17 @@ theorem Runs.rot {a x y} (h : CodeAt P k (li l .rot a :: r))
 
 /-! #### environment access -/
 
-theorem Runs.fetch {a kv} (h : CodeAt P k (li l .fetch a :: r)) (hv : P.consts[a]? = some kv) :
+theorem Runs.fetch {a kv} (h : CodeAt P k (li l .fetch a :: r)) (hv : P.consts[a]? = some kv) (hb : RBlame P l (fetchV c.env kv false)) :
     Runs c P (vm k st scs σ lim) (outcome (fetchV c.env kv false) (k + 3) st scs σ lim) := by
   refine Runs.exec h rfl ?_
   exec_simp [hv]
-  exact runs_lift _
+  exact runs_lift _ hb
 
-theorem Runs.fetchNilSafe {a kv} (h : CodeAt P k (li l .fetchNilSafe a :: r)) (hv : P.consts[a]? = some kv) :
+theorem Runs.fetchNilSafe {a kv} (h : CodeAt P k (li l .fetchNilSafe a :: r)) (hv : P.consts[a]? = some kv) (hb : RBlame P l (fetchV c.env kv true)) :
     Runs c P (vm k st scs σ lim) (outcome (fetchV c.env kv true) (k + 3) st scs σ lim) := by
   refine Runs.exec h rfl ?_
   exec_simp [hv]
-  exact runs_lift _
+  exact runs_lift _ hb
 
 theorem Runs.fetchMap {a name kvs} (h : CodeAt P k (li l .fetchMap a :: r)) (hv : P.consts[a]? = some (.str name))
     (henv : c.env = .map kvs)
@@ -100,17 +106,17 @@ theorem Runs.fetchMap {a name kvs} (h : CodeAt P k (li l .fetchMap a :: r)) (hv 
 
 /-! #### unary and binary operators -/
 
-theorem Runs.not_ {a v} (h : CodeAt P k (li l .not_ a :: r)) :
+theorem Runs.not_ {a v} (h : CodeAt P k (li l .not_ a :: r)) (hb : RBlame P l (notV v)) :
     Runs c P (vm k (v :: st) scs σ lim) (outcome (notV v) (k + 1) st scs σ lim) := by
   refine Runs.exec h rfl ?_
   exec_simp []
-  exact runs_lift _
+  exact runs_lift _ hb
 
-theorem Runs.negate {a v} (h : CodeAt P k (li l .negate a :: r)) :
+theorem Runs.negate {a v} (h : CodeAt P k (li l .negate a :: r)) (hb : RBlame P l (negV v)) :
     Runs c P (vm k (v :: st) scs σ lim) (outcome (negV v) (k + 1) st scs σ lim) := by
   refine Runs.exec h rfl ?_
   exec_simp []
-  exact runs_lift _
+  exact runs_lift _ hb
 
 theorem Runs.equal {a x y} (h : CodeAt P k (li l .equal a :: r))
     (hr : Runs c P (vm (k + 1) (.bool (equalV x y) :: st) scs σ lim) Q) :
@@ -138,94 +144,96 @@ theorem eqStrR_else {x y : Val} (h : ∀ a b, x = .str a → y = .str b → Fals
   · exact (h _ _ rfl rfl).elim
   · rfl
 
-theorem Runs.equalInt {a x y} (h : CodeAt P k (li l .equalInt a :: r)) :
+theorem Runs.equalInt {a x y} (h : CodeAt P k (li l .equalInt a :: r)) (hb : RBlame P l (eqIntR x y)) :
     Runs c P (vm k (y :: x :: st) scs σ lim) (outcome (eqIntR x y) (k + 1) st scs σ lim) := by
   refine Runs.exec h rfl ?_
   exec_simp []
-  refine runs_res (pp := k) (s2 := ⟨st, scs, k + 1, k, σ.memory, lim, σ.created, σ.log⟩) (eqIntR x y) ?_ rfl
+  refine runs_res (pp := k) (s2 := ⟨st, scs, k + 1, k, σ.memory, lim, σ.created, σ.log⟩) (eqIntR x y) ?_ rfl hb
   split
   · rfl
   · rename_i hne; rw [eqIntR_else hne]
 
-theorem Runs.equalString {a x y} (h : CodeAt P k (li l .equalString a :: r)) :
+theorem Runs.equalString {a x y} (h : CodeAt P k (li l .equalString a :: r)) (hb : RBlame P l (eqStrR x y)) :
     Runs c P (vm k (y :: x :: st) scs σ lim) (outcome (eqStrR x y) (k + 1) st scs σ lim) := by
   refine Runs.exec h rfl ?_
   exec_simp []
-  refine runs_res (pp := k) (s2 := ⟨st, scs, k + 1, k, σ.memory, lim, σ.created, σ.log⟩) (eqStrR x y) ?_ rfl
+  refine runs_res (pp := k) (s2 := ⟨st, scs, k + 1, k, σ.memory, lim, σ.created, σ.log⟩) (eqStrR x y) ?_ rfl hb
   split
   · rfl
   · rename_i hne; rw [eqStrR_else hne]
 
-theorem Runs.in_ {a x y} (h : CodeAt P k (li l .in_ a :: r)) :
+theorem Runs.in_ {a x y} (h : CodeAt P k (li l .in_ a :: r)) (hb : RBlame P l (inV x y)) :
     Runs c P (vm k (y :: x :: st) scs σ lim) (outcome ((inV x y).map Val.bool) (k + 1) st scs σ lim) := by
   refine Runs.exec h rfl ?_
   exec_simp []
+  revert hb
   cases inV x y with
-  | ok b => exact ExecPost.ok (Reach.refl _) rfl
-  | error e => rfl
+  | ok b => intro _; exact ExecPost.ok (Reach.refl _) rfl
+  | error e => intro hb; exact ⟨rfl, hb e rfl⟩
 
-theorem Runs.binop {op hlp a x y} (h : CodeAt P k (li l op a :: r)) (hop : binOpOf op = some hlp) :
+theorem Runs.binop {op hlp a x y} (h : CodeAt P k (li l op a :: r)) (hop : binOpOf op = some hlp) (hb : RBlame P l (binHelper hlp x y)) :
     Runs c P (vm k (y :: x :: st) scs σ lim) (outcome (binHelper hlp x y) (k + 1) st scs σ lim) := by
   refine Runs.exec h rfl ?_
   cases op <;> simp only [binOpOf] at hop <;> try cases hop
   all_goals
     exec_simp []
-    exact runs_lift _
+    exact runs_lift _ hb
 
 def powR (w : World) (x y : Val) : R Val :=
   match toFloat64Val x, toFloat64Val y with
   | some a, some b => .ok (.f64 (w.pow a b))
   | _, _ => .error .type_
 
-theorem Runs.exponent {a x y} (h : CodeAt P k (li l .exponent a :: r)) :
+theorem Runs.exponent {a x y} (h : CodeAt P k (li l .exponent a :: r)) (hb : RBlame P l (powR c.world x y)) :
     Runs c P (vm k (y :: x :: st) scs σ lim) (outcome (powR c.world x y) (k + 1) st scs σ lim) := by
   refine Runs.exec h rfl ?_
   exec_simp []
-  refine runs_res (pp := k) (s2 := ⟨st, scs, k + 1, k, σ.memory, lim, σ.created, σ.log⟩) (powR c.world x y) ?_ rfl
+  refine runs_res (pp := k) (s2 := ⟨st, scs, k + 1, k, σ.memory, lim, σ.created, σ.log⟩) (powR c.world x y) ?_ rfl hb
   unfold powR
   cases toFloat64Val x <;> cases toFloat64Val y <;> rfl
 
 theorem Runs.strop {op f a x y} (h : CodeAt P k (li l op a :: r))
-    (hop : (op = .contains ∧ f = strContains) ∨ (op = .startsWith ∧ f = strHasPrefix) ∨ (op = .endsWith ∧ f = strHasSuffix)) :
+    (hop : (op = .contains ∧ f = strContains) ∨ (op = .startsWith ∧ f = strHasPrefix) ∨ (op = .endsWith ∧ f = strHasSuffix)) (hb : RBlame P l (strOp f x y)) :
     Runs c P (vm k (y :: x :: st) scs σ lim) (outcome (strOp f x y) (k + 1) st scs σ lim) := by
   refine Runs.exec h rfl ?_
   rcases hop with ⟨rfl, rfl⟩ | ⟨rfl, rfl⟩ | ⟨rfl, rfl⟩
   all_goals
     exec_simp []
-    exact runs_lift _
+    exact runs_lift _ hb
 
-theorem Runs.index {a x y} (h : CodeAt P k (li l .index a :: r)) :
+theorem Runs.index {a x y} (h : CodeAt P k (li l .index a :: r)) (hb : RBlame P l (fetchV x y false)) :
     Runs c P (vm k (y :: x :: st) scs σ lim) (outcome (fetchV x y false) (k + 1) st scs σ lim) := by
   refine Runs.exec h rfl ?_
   exec_simp []
-  exact runs_lift _
+  exact runs_lift _ hb
 
-theorem Runs.slice {a x f t} (h : CodeAt P k (li l .slice a :: r)) :
+theorem Runs.slice {a x f t} (h : CodeAt P k (li l .slice a :: r)) (hb : RBlame P l (sliceV x f t)) :
     Runs c P (vm k (f :: t :: x :: st) scs σ lim) (outcome (sliceV x f t) (k + 1) st scs σ lim) := by
   refine Runs.exec h rfl ?_
   exec_simp []
-  exact runs_lift _
+  exact runs_lift _ hb
 
-theorem Runs.property {a x kv} (h : CodeAt P k (li l .property a :: r)) (hv : P.consts[a]? = some kv) :
+theorem Runs.property {a x kv} (h : CodeAt P k (li l .property a :: r)) (hv : P.consts[a]? = some kv) (hb : RBlame P l (fetchV x kv false)) :
     Runs c P (vm k (x :: st) scs σ lim) (outcome (fetchV x kv false) (k + 3) st scs σ lim) := by
   refine Runs.exec h rfl ?_
   exec_simp [hv]
-  exact runs_lift _
+  exact runs_lift _ hb
 
-theorem Runs.propertyNilSafe {a x kv} (h : CodeAt P k (li l .propertyNilSafe a :: r)) (hv : P.consts[a]? = some kv) :
+theorem Runs.propertyNilSafe {a x kv} (h : CodeAt P k (li l .propertyNilSafe a :: r)) (hv : P.consts[a]? = some kv) (hb : RBlame P l (fetchV x kv true)) :
     Runs c P (vm k (x :: st) scs σ lim) (outcome (fetchV x kv true) (k + 3) st scs σ lim) := by
   refine Runs.exec h rfl ?_
   exec_simp [hv]
-  exact runs_lift _
+  exact runs_lift _ hb
 
 /-- `OpLen` peeks: the collection stays below the length -/
-theorem Runs.len {a x} (h : CodeAt P k (li l .len a :: r)) :
+theorem Runs.len {a x} (h : CodeAt P k (li l .len a :: r)) (hb : RBlame P l (lengthV x)) :
     Runs c P (vm k (x :: st) scs σ lim) (outcome ((lengthV x).map (Val.int .int)) (k + 1) (x :: st) scs σ lim) := by
   refine Runs.exec h rfl ?_
   exec_simp []
+  revert hb
   cases lengthV x with
-  | ok n => exact ExecPost.ok (Reach.refl _) rfl
-  | error e => rfl
+  | ok n => intro _; exact ExecPost.ok (Reach.refl _) rfl
+  | error e => intro hb; exact ⟨rfl, hb e rfl⟩
 
 /-! #### matches -/
 
@@ -241,22 +249,22 @@ theorem matchR_else {w : World} {x y : Val} (h : ∀ a b, x = .str a → y = .st
   · exact (h _ _ rfl rfl).elim
   · rfl
 
-theorem Runs.matches_ {a x y} (h : CodeAt P k (li l .matches_ a :: r)) :
+theorem Runs.matches_ {a x y} (h : CodeAt P k (li l .matches_ a :: r)) (hb : RBlame P l (matchR c.world x y)) :
     Runs c P (vm k (y :: x :: st) scs σ lim) (outcome (matchR c.world x y) (k + 1) st scs σ lim) := by
   refine Runs.exec h rfl ?_
   exec_simp []
-  refine runs_res (pp := k) (s2 := ⟨st, scs, k + 1, k, σ.memory, lim, σ.created, σ.log⟩) (matchR c.world x y) ?_ rfl
+  refine runs_res (pp := k) (s2 := ⟨st, scs, k + 1, k, σ.memory, lim, σ.created, σ.log⟩) (matchR c.world x y) ?_ rfl hb
   split
   · rename_i s p
     simp only [matchR]
     cases c.world.regexMatch p s <;> rfl
   · rename_i hne; rw [matchR_else hne]
 
-theorem Runs.matchesConst {a x pat} (h : CodeAt P k (li l .matchesConst a :: r)) (hv : P.consts[a]? = some (.regexp pat)) :
+theorem Runs.matchesConst {a x pat} (h : CodeAt P k (li l .matchesConst a :: r)) (hv : P.consts[a]? = some (.regexp pat)) (hb : RBlame P l (matchR c.world x (.str pat))) :
     Runs c P (vm k (x :: st) scs σ lim) (outcome (matchR c.world x (.str pat)) (k + 3) st scs σ lim) := by
   refine Runs.exec h rfl ?_
   exec_simp [hv]
-  refine runs_res (pp := k) (s2 := ⟨st, scs, k + 1 + 2, k, σ.memory, lim, σ.created, σ.log⟩) (matchR c.world x (.str pat)) ?_ rfl
+  refine runs_res (pp := k) (s2 := ⟨st, scs, k + 1 + 2, k, σ.memory, lim, σ.created, σ.log⟩) (matchR c.world x (.str pat)) ?_ rfl hb
   unfold matchR
   cases x <;> try rfl
   rename_i s
@@ -296,14 +304,14 @@ theorem Runs.jumpIfFalse_true {o} (h : CodeAt P k (li l .jumpIfFalse o :: r))
   exact ExecPost.ok hr rfl
 
 theorem Runs.jumpIf_err {op o v} (hop : op = .jumpIfTrue ∨ op = .jumpIfFalse) (h : CodeAt P k (li l op o :: r))
-    (hv : ∀ b, v ≠ .bool b) : Runs c P (vm k (v :: st) scs σ lim) (.err .type_ σ) := by
+    (hv : ∀ b, v ≠ .bool b) (hb : P.blame .type_ l) : Runs c P (vm k (v :: st) scs σ lim) (.err .type_ σ) := by
   refine Runs.exec h rfl ?_
   rcases hop with rfl | rfl
   all_goals
     exec_simp []
     cases v with
     | bool b => exact absurd rfl (hv b)
-    | _ => rfl
+    | _ => exact ⟨rfl, hb⟩
 
 theorem Runs.jumpBackward {o} (h : CodeAt P k (li l .jumpBackward o :: r)) (ho : o ≤ k + 3)
     (hr : Runs c P (vm (k + 3 - o) st scs σ lim) Q) : Runs c P (vm k st scs σ lim) Q := by
@@ -372,7 +380,7 @@ def logged (res : R Val) (name : String) (args : List Val) (σ : SState) : SStat
   if callHappened res then { σ with log := (name, args) :: σ.log } else σ
 
 theorem Runs.call {op a name} {args : List Val} (hop : op = .call ∨ op = .callFast)
-    (h : CodeAt P k (li l op a :: r)) (hv : P.consts[a]? = some (.call name args.length)) :
+    (h : CodeAt P k (li l op a :: r)) (hv : P.consts[a]? = some (.call name args.length)) (hb : RBlame P l (callMember c.world c.env name args)) :
     Runs c P (vm k (args.reverse ++ st) scs σ lim)
       (outcome (callMember c.world c.env name args) (k + 3) st scs
         (logged (callMember c.world c.env name args) name args σ) lim) := by
@@ -384,11 +392,12 @@ theorem Runs.call {op a name} {args : List Val} (hop : op = .call ∨ op = .call
     exec_simp [hv]
     rw [hp _ _ rfl]
     simp only [List.append_nil, logged]
+    revert hb
     cases callHappened (callMember c.world c.env name args)
     all_goals
       cases callMember c.world c.env name args with
-      | ok v => exact ExecPost.ok (Reach.refl _) rfl
-      | error e => rfl
+      | ok v => intro _; exact ExecPost.ok (Reach.refl _) rfl
+      | error e => intro hb; exact ⟨rfl, hb e rfl⟩
 
 /-- result of a method call on `obj` -/
 def methodR (w : World) (nilsafe : Bool) (obj : Val) (name : String) (args : List Val) : R Val :=
@@ -399,7 +408,7 @@ def methodLogged (w : World) (nilsafe : Bool) (obj : Val) (name : String) (args 
 
 theorem Runs.method {op a name obj ns} {args : List Val}
     (hop : (op = .method ∧ ns = false) ∨ (op = .methodNilSafe ∧ ns = true))
-    (h : CodeAt P k (li l op a :: r)) (hv : P.consts[a]? = some (.call name args.length)) :
+    (h : CodeAt P k (li l op a :: r)) (hv : P.consts[a]? = some (.call name args.length)) (hb : RBlame P l (methodR c.world ns obj name args)) :
     Runs c P (vm k (args.reverse ++ obj :: st) scs σ lim)
       (outcome (methodR c.world ns obj name args) (k + 3) st scs (methodLogged c.world ns obj name args σ) lim) := by
   refine Runs.exec h rfl ?_
@@ -409,30 +418,32 @@ theorem Runs.method {op a name obj ns} {args : List Val}
   · exec_simp [hv]
     rw [hp _ _ rfl]
     simp only [List.append_nil, logged, methodR, methodLogged, Bool.false_and, Bool.false_eq_true, if_false,
-      show (Op.method == Op.methodNilSafe) = false from rfl]
+      show (Op.method == Op.methodNilSafe) = false from rfl] at hb ⊢
+    revert hb
     cases callHappened (callMember c.world obj name args)
     all_goals
       cases callMember c.world obj name args with
-      | ok v => exact ExecPost.ok (Reach.refl _) rfl
-      | error e => rfl
+      | ok v => intro _; exact ExecPost.ok (Reach.refl _) rfl
+      | error e => intro hb; exact ⟨rfl, hb e rfl⟩
   · exec_simp [hv]
     rw [hp _ _ rfl]
     simp only [List.append_nil, logged, methodR, methodLogged, Bool.true_and,
-      show (Op.methodNilSafe == Op.methodNilSafe) = true from rfl]
+      show (Op.methodNilSafe == Op.methodNilSafe) = true from rfl] at hb ⊢
+    revert hb
     cases obj.isNilLike
     · simp only [Bool.false_eq_true, if_false]
       cases callHappened (callMember c.world obj name args)
       all_goals
         cases callMember c.world obj name args with
-        | ok v => exact ExecPost.ok (Reach.refl _) rfl
-        | error e => rfl
-    · exact ExecPost.ok (Reach.refl _) rfl
+        | ok v => intro _; exact ExecPost.ok (Reach.refl _) rfl
+        | error e => intro hb; exact ⟨rfl, hb e rfl⟩
+    · intro _; exact ExecPost.ok (Reach.refl _) rfl
 
 /-- observable state after `allocAfter counted built` (whether or not the budget is exceeded) -/
 def allocd (σ : SState) (counted : Int) (built : Nat) : SState :=
   { σ with memory := σ.memory + counted, created := σ.created + built }
 
-theorem Runs.array {a} {vs : List Val} (h : CodeAt P k (li l .array a :: r)) :
+theorem Runs.array {a} {vs : List Val} (h : CodeAt P k (li l .array a :: r)) (hb : RBlame P l ((if (allocd σ vs.length vs.length).memory ≥ lim then .error .budget else .ok (.arr .iface vs) : R Val))) :
     Runs c P (vm k (.int .int vs.length :: (vs.reverse ++ st)) scs σ lim)
       (outcome (if (allocd σ vs.length vs.length).memory ≥ lim then .error .budget else .ok (.arr .iface vs))
         (k + 1) st scs (allocd σ vs.length vs.length) lim) := by
@@ -443,12 +454,14 @@ theorem Runs.array {a} {vs : List Val} (h : CodeAt P k (li l .array a :: r)) :
   rw [if_neg (by omega)]
   simp only [Int.toNat_natCast]
   rw [hp _ _ rfl]
-  simp only [List.append_nil, allocd]
-  by_cases hb : σ.memory + (vs.length : Int) ≥ lim
-  · simp only [hb, ↓reduceIte]; rfl
-  · simp only [hb, ↓reduceIte]; exact ExecPost.ok (Reach.refl _) rfl
+  simp only [List.append_nil, allocd] at hb ⊢
+  by_cases hbd : σ.memory + (vs.length : Int) ≥ lim
+  · simp only [hbd, ↓reduceIte] at hb ⊢; exact ⟨rfl, hb _ rfl⟩
+  · simp only [hbd, ↓reduceIte]; exact ExecPost.ok (Reach.refl _) rfl
 
-theorem Runs.map {a} {n : Nat} {flat : List Val} (h : CodeAt P k (li l .map a :: r)) (hn : flat.length = 2 * n) :
+theorem Runs.map {a} {n : Nat} {flat : List Val} (h : CodeAt P k (li l .map a :: r)) (hn : flat.length = 2 * n)
+    (hb1 : RBlame P l (buildMap flat))
+    (hb2 : ∀ mp, buildMap flat = .ok mp → (allocd σ n n).memory ≥ lim → P.blame .budget l) :
     Runs c P (vm k (.int .int n :: (flat.reverse ++ st)) scs σ lim)
       (match buildMap flat with
        | .error e => .err e σ
@@ -461,14 +474,16 @@ theorem Runs.map {a} {n : Nat} {flat : List Val} (h : CodeAt P k (li l .map a ::
   rw [if_neg (by omega)]
   simp only [Int.toNat_natCast]
   rw [hp _ _ rfl]
-  simp only [List.append_nil, allocd, liftR]
+  simp only [List.append_nil, allocd, liftR] at hb2 ⊢
+  revert hb1 hb2
   cases buildMap flat with
-  | error e => rfl
+  | error e => intro hb1 _; exact ⟨rfl, hb1 e rfl⟩
   | ok m =>
+    intro _ hb2
     simp only []
-    by_cases hb : σ.memory + (n : Int) ≥ lim
-    · simp only [hb, ↓reduceIte]; rfl
-    · simp only [hb, ↓reduceIte]; exact ExecPost.ok (Reach.refl _) rfl
+    by_cases hbd : σ.memory + (n : Int) ≥ lim
+    · simp only [hbd, ↓reduceIte]; exact ⟨rfl, hb2 m rfl hbd⟩
+    · simp only [hbd, ↓reduceIte]; exact ExecPost.ok (Reach.refl _) rfl
 
 /-! #### range -/
 
@@ -484,32 +499,33 @@ def rangeR (signed : Bool) (lim : Int) (x y : Val) (σ : SState) : R Val × SSta
       if σ.memory + counted ≥ lim then (.error .budget, σ)
       else (.ok (.arr (.num .int) (rangeElems lo hi)), allocd σ counted (rangeElems lo hi).length)
 
-theorem Runs.range {a x y} (h : CodeAt P k (li l .range a :: r)) :
+theorem Runs.range {a x y} (h : CodeAt P k (li l .range a :: r)) (hb : RBlame P l ((rangeR c.defects.rangeSizeSigned lim x y σ).1)) :
     Runs c P (vm k (y :: x :: st) scs σ lim)
       (outcome (rangeR c.defects.rangeSizeSigned lim x y σ).1 (k + 1) st scs (rangeR c.defects.rangeSizeSigned lim x y σ).2 lim) := by
   refine Runs.exec h rfl ?_
   exec_simp [liftR]
-  unfold rangeR
+  unfold rangeR at hb ⊢
+  revert hb
   cases toIntR x with
-  | error e => rfl
+  | error e => intro hb; exact ⟨rfl, hb e rfl⟩
   | ok lo =>
     cases toIntR y with
-    | error e => rfl
+    | error e => intro hb; exact ⟨rfl, hb e rfl⟩
     | ok hi =>
       simp only []
       generalize (if c.defects.rangeSizeSigned = true then hi - lo + 1 else if hi - lo + 1 < 0 then 0 else hi - lo + 1) = counted
-      by_cases hb : σ.memory + counted ≥ lim
-      · simp only [hb, ↓reduceIte]; rfl
-      · simp only [hb, ↓reduceIte]; exact ExecPost.ok (Reach.refl _) rfl
+      by_cases hbd : σ.memory + counted ≥ lim
+      · simp only [hbd, ↓reduceIte]; intro hb; exact ⟨rfl, hb _ rfl⟩
+      · simp only [hbd, ↓reduceIte]; intro _; exact ExecPost.ok (Reach.refl _) rfl
 
 /-! #### the result directive -/
 
-theorem Runs.cast {t v} (h : CodeAt P k (li l .cast t :: r)) (ht : t = 0 ∨ t = 1) :
+theorem Runs.cast {t v} (h : CodeAt P k (li l .cast t :: r)) (ht : t = 0 ∨ t = 1) (hb : RBlame P l (castV t v)) :
     Runs c P (vm k (v :: st) scs σ lim) (outcome (castV t v) (k + 3) st scs σ lim) := by
   refine Runs.exec h rfl ?_
   rcases ht with rfl | rfl
   all_goals
     exec_simp []
-    exact runs_lift _
+    exact runs_lift _ hb
 
 end ExprModel.Refine
